@@ -17,7 +17,8 @@ RULE = ('cases = protocol state (6, reached by a canonical prefix on the real lo
         'quick) + seeded random byte strings and bit flips, x ending {FIN, RST, silence}, under a '
         'seeded segmentation; non-trivial = the stream is not a valid PDU sequence under R-codec '
         '(unrecognised, malformed, DIMSE-level garbage or incomplete); distinct = distinct '
-        '(state, base, operator, ending)')
+        '(state, base, operator, ending)'
+        '; states incl. the release-collision states Sta9-Sta12; floods with a non-consuming user; FIN right behind the last byte; peer-announced maximum 1..6 followed by a local send (real association layer)')
 ASSUMPTIONS = ['two-branch reaction oracle: a PDU that is malformed under a strict reading may be '
                'treated as invalid (Evt19 row) or leniently as its own type; valid PDUs and '
                'DIMSE-level garbage are only required not to crash/hang and to end orderly',
